@@ -16,13 +16,14 @@ TreeOf(entries) ==
 
 TraceInit == /\ i \in 1..Len(Obs)
              /\ tree = TreeOf(Obs[i].entries) /\ tree0 = tree
-             /\ phase = "building" /\ reported = 0 /\ outside = TRUE
+             /\ phase = "building" /\ reported = 0 /\ outside = TRUE /\ root = "dir"
 
 (* the logged after-state is bound to the primed variables of the spec action *)
 TraceCleanStep ==
     /\ \E extra \in SUBSET MayRemove(tree) : Clean(extra)
     /\ tree' = TreeOf(Obs[i].after)
     /\ reported' = Obs[i].count
+    /\ root' = (IF Obs[i].dir_exists THEN "dir" ELSE "gone")
     /\ Obs[i].exit = 0
     /\ Obs[i].outside_ok
     /\ Obs[i].contents_ok
